@@ -3487,6 +3487,11 @@ void ADFH_Read_Data(const double ID,
 
   ADFH_DEBUG(("ADFH_Read_Data"));
 
+  /* the rank of the memory array is checked before it is used */
+  if (m_num_dims < 1 || m_num_dims > ADF_MAX_DIMENSIONS) {
+    set_error(BAD_NUMBER_OF_DIMENSIONS, err);
+    return;
+  }
   if ((hid = open_node(ID, err)) < 0) return;
 
   if (!data_exists(hid)) {
@@ -3831,6 +3836,11 @@ void ADFH_Write_Data(const double ID,
 
   ADFH_DEBUG(("ADFH_Write_Data"));
 
+  /* the rank of the memory array is checked before it is used */
+  if (m_num_dims < 1 || m_num_dims > ADF_MAX_DIMENSIONS) {
+    set_error(BAD_NUMBER_OF_DIMENSIONS, err);
+    return;
+  }
   if (data == NULL) {
     set_error(NULL_POINTER, err);
     return;
